@@ -55,7 +55,7 @@ fn set_clock(_r: Vec<u64>) {
 
 /// Process-wide engine configuration for the `ShardContext` probes (CONFIG is a global Lazy
 /// read from $SNELDB_CONFIG). Directories named in it are never used by these probes.
-fn ensure_config() {
+pub fn ensure_config() {
     use std::sync::Once;
     static ONCE: Once = Once::new();
     ONCE.call_once(|| {
